@@ -41,6 +41,7 @@ type Log struct {
 	source io.Reader
 	writer *iostream.Writer
 	reader *iostream.Reader
+	output *s2.Writer // The compressor behind the writer, stopped on close
 }
 
 // Open opens a commit log stream for both read and write.
@@ -51,7 +52,8 @@ func Open(source io.Reader) *Log {
 	}
 
 	if rw, ok := source.(io.Writer); ok {
-		log.writer = iostream.NewWriter(s2.NewWriter(rw))
+		log.output = s2.NewWriter(rw)
+		log.writer = iostream.NewWriter(log.output)
 	}
 	return log
 }
@@ -144,8 +146,13 @@ func (l *Log) Copy(dst io.Writer) error {
 func (l *Log) Close() (err error) {
 	l.lock.Lock()
 	defer l.lock.Unlock()
+	if l.output != nil {
+		err = l.output.Close() // every append was flushed; this stops the compressor's goroutine
+	}
 	if closer, ok := l.source.(io.Closer); ok {
-		err = closer.Close()
+		if cerr := closer.Close(); err == nil {
+			err = cerr
+		}
 	}
 	return
 }
